@@ -86,6 +86,16 @@ CLAIMED['C18'] = dict(
     technique="LLVM-IR global-variable use classification (custom libLLVM pass) joined with a forbidden-call scan over the clang-resolved AST",
     ref="DESIGN.md section 4, C18")
 
+CLAIMED['C17'] = dict(
+    text="Structural necessary conditions over the copy path computed from the call graph (classes whose user-provided operator= is reachable from "
+         "SoPlexBase::operator=): every member that a public observer of SoPlexBase reads is written by its class's operator=; SoPlexBase's pointer "
+         "and shared_ptr members are not taken from the source and every copied component that carries a Tolerances pointer is re-bound to the "
+         "copy's own object (including the solver's cloned pricer / ratio tester / starter); every member the default-constructor path assigns is "
+         "also assigned on the copy-construction path; no nondeterminism source (rand, time seeding, foreign RNG engines, unordered iteration) "
+         "occurs in library code (positive controls fire on every run). Not a proof of bit-identical results.",
+    technique="observer read-set vs. copy write-set comparison, constructor-parity dataflow, alias/re-bind rules and forbidden-API scan over the clang-resolved AST and call graph",
+    ref="DESIGN.md section 4, C17")
+
 NA = {
     'C10': "every clause quantifies over run-time numbers (residuals at rounding level, singular vs. well-conditioned, agreement of multi-rhs solves); "
            "no structural clause is both checkable and necessary (DESIGN.md section 5)",
